@@ -889,4 +889,63 @@ theorem forwarded_ack_answers_round (hd : DistinctAddrs ids) (data : Bytes) (c c
       | some pos => simp [Probe.succeeded, Gen.probeSucceeded]
 
 end
+/-! ### the whole reply table -/
+
+section
+variable (E : Env) (τ : Id → Nat) (ids : List Id) (K : Msg → Prop)
+
+/-- **The reply table is followed.** A calm instance that handled — successfully — a request (Ping, PingReq,
+    IndirectPing, IndirectAck, Announce) addressed to it and is connected afterwards has sent, as the last datagram
+    of the call, the table's answer to the table's destination. -/
+theorem request_is_answered (hd : DistinctAddrs ids) (data : Bytes) (c c' : Ctx)
+    (hc : CalmSent E τ ids K c.s c.eff) (hdat : DataOk E (CalmM τ ids) (CalmH τ ids) data)
+    (hrun : Foca.handleData E data c = .ok () c') (h : Header) (rest : Bytes)
+    (hdec : E.codec.decHeader data = some (h, rest)) (hdst : h.dst = c.s.id) (d : Id) (r : Msg)
+    (hreply : C18.replyOf h.src h.msg = some (d, r)) (hconn : c'.s.conn = .connected) :
+    ∃ pre bytes, c'.eff = pre ++ [.send d bytes] ∧ bytes.length ≤ c'.s.cfg.mps ∧
+      DatagramShape E (CalmM τ ids) ⟨c'.s.id, c'.s.inc, d, r⟩ bytes := by
+  obtain ⟨cres, c3, hc3, hrs⟩ := calm_data_reaches_reply E τ ids K hd data c c' hc hdat hrun h rest hdec hdst
+  rcases replyStage_ok E h cres c3 c' hrs with ⟨hncn, rfl⟩ | ⟨_, hreact⟩
+  · exact absurd hconn hncn
+  · have hm : h.msg ≠ .turnUndead := by
+      intro hx; rw [hx] at hreply; simp [C18.replyOf] at hreply
+    have ht := C18.reply_table E h.src h.dst h.srcInc h.msg c3 hm
+    rw [hreply] at ht
+    simp only at ht
+    have heta : (⟨h.src, h.srcInc, h.dst, h.msg⟩ : Header) = h := by cases h; rfl
+    rw [heta] at ht
+    have hsend : Foca.sendMessage E d r c3 = .ok () c' := by
+      rcases ht with ht | ht
+      · rw [← ht]; exact hreact
+      · rw [ht] at hreact; cases hreact
+    have hsh := sendMessage_shape E (CalmM τ ids) d r c3 (CalmInv.sendReady E τ ids hc3.1)
+    have hsp := sendMessage_spec E d r c3
+    rw [hsend] at hsh hsp
+    simp only [SentShape, SendOK] at hsh hsp
+    obtain ⟨bytes, he, hlen, hshape⟩ := hsh
+    have hob := hsp.1
+    unfold OnlyBacklogs at hob
+    refine ⟨c3.eff, bytes, he, ?_, ?_⟩
+    · rw [hob]; exact hlen
+    · rw [hob]; exact hshape
+
+end
+
+/-- the table's answer to a wire-range header is wire-range -/
+theorem reply_wire {h : Header} (hw : HWire h) {d : Id} {r : Msg} (hreply : C18.replyOf h.src h.msg = some (d, r)) :
+    IdWire d ∧ MsgWire r := by
+  obtain ⟨hsrc, _, _, hmsg⟩ := hw
+  cases hm : h.msg with
+  | ping n => rw [hm] at hreply hmsg; simp [C18.replyOf] at hreply; obtain ⟨rfl, rfl⟩ := hreply; exact ⟨hsrc, hmsg⟩
+  | pingReq t n => rw [hm] at hreply hmsg; simp [C18.replyOf] at hreply; obtain ⟨rfl, rfl⟩ := hreply; exact ⟨hmsg.1, hsrc, hmsg.2⟩
+  | indirectPing o n => rw [hm] at hreply hmsg; simp [C18.replyOf] at hreply; obtain ⟨rfl, rfl⟩ := hreply; exact ⟨hsrc, hmsg⟩
+  | indirectAck t n => rw [hm] at hreply hmsg; simp [C18.replyOf] at hreply; obtain ⟨rfl, rfl⟩ := hreply; exact ⟨hmsg.1, hsrc, hmsg.2⟩
+  | announce => rw [hm] at hreply; simp [C18.replyOf] at hreply; obtain ⟨rfl, rfl⟩ := hreply; exact ⟨hsrc, trivial⟩
+  | ack n => rw [hm] at hreply; simp [C18.replyOf] at hreply
+  | forwardedAck o n => rw [hm] at hreply; simp [C18.replyOf] at hreply
+  | gossip => rw [hm] at hreply; simp [C18.replyOf] at hreply
+  | feed => rw [hm] at hreply; simp [C18.replyOf] at hreply
+  | broadcast => rw [hm] at hreply; simp [C18.replyOf] at hreply
+  | turnUndead => rw [hm] at hreply; simp [C18.replyOf] at hreply
+
 end Foca
